@@ -6,10 +6,6 @@ From Blue Require Import Lsm.Model Lsm.KeyOrder Lsm.SortLemmas Crash.Model Crash
 Import ListNotations.
 Open Scope N_scope.
 
-(* the names recovery reads *)
-Definition relevant (n : name) : bool :=
-  match n with NMani | NLog _ | NSst _ => true | _ => false end.
-
 Definition same_rel (s s' : fs) : Prop := forall n, relevant n = true -> lookup n s' = lookup n s.
 
 Lemma same_rel_refl s : same_rel s s.
@@ -87,6 +83,26 @@ Proof.
   intros Hc n f _ Hl. apply (cut_all_durable _ _ Hc n f). now apply lookup_in.
 Qed.
 
+(* X is an outcome the pair (E, P) allows: a directory that recovers X recovers E, or E and the
+   whole pending batch *)
+Definition covers (E : list entry) (P : option (list entry)) (X : list entry) : Prop :=
+  forall img, Rec img X -> Rec img E \/ exists p, P = Some p /\ Rec img (E ++ p).
+
+Lemma covers_refl E P : covers E P E.
+Proof. intros img H. now left. Qed.
+
+Lemma covers_pend E p : covers E (Some p) (E ++ p).
+Proof. intros img H. right. eauto. Qed.
+
+Lemma covers_set_eq E P X X' : (forall e, In e X <-> In e X') -> covers E P X -> covers E P X'.
+Proof. intros H Hc img Hr. apply Hc. eapply rec_set_eq; [|exact Hr]. intros e. symmetry. apply H. Qed.
+
+Lemma good_safe_c s X E P : Good s X -> covers E P X -> Safe s E P.
+Proof.
+  intros Hg Hc s' Hcut. apply Hc.
+  destruct (good_safe s X None Hg s' Hcut) as [H|(? & H & _)]; [exact H|discriminate].
+Qed.
+
 (* ------------------------------------------------------------------ one unsynced write() *)
 (* s1 = s0 after one more chunk c was written to the relevant file f (not yet synced): a crash
    keeps the chunk or drops it *)
@@ -128,6 +144,18 @@ Proof.
   - destruct HE as [->|(p & -> & ->)].
     + left. eapply rec_ext; eauto.
     + right. exists p. split; [reflexivity|]. eapply rec_ext; eauto.
+Qed.
+
+Lemma pending_safe_c f s0 fl c X X' E P :
+  relevant f = true -> Good s0 X -> lookup f s0 = Some fl ->
+  Rec (set f (mkFile (f_data fl ++ [c]) (S (length (f_data fl)))) s0) X' ->
+  covers E P X -> covers E P X' ->
+  Safe (set f (mkFile (f_data fl ++ [c]) (f_dur fl)) s0) E P.
+Proof.
+  intros Hf [Hst Hr] Hl Hr' HX HX' s' Hc.
+  destruct (pending_cut f s0 fl c s' Hf Hst (proj1 Hr) Hl Hc) as [Hw [Hs|Hs]].
+  - apply HX. eapply rec_ext; eauto.
+  - apply HX'. eapply rec_ext; eauto.
 Qed.
 
 (* ------------------------------------------------------------------ frames: files recovery does not read *)
@@ -202,7 +230,7 @@ Proof. intros H f k. unfold fstate. now rewrite firstn_nil. Qed.
 Lemma prefix_safe_must_cons c p s E P :
   Safe s E P -> (forall s', exec c s = Some s' -> prefix_safe p s' E P) -> prefix_safe ((c, Must) :: p) s E P.
 Proof.
-  intros H0 Hn f [|k]; [exact H0|]. unfold fstate. cbn [firstn run_prog].
+  intros H0 Hn f [|k]; [exact H0|]. unfold fstate. cbn [firstn run_prog retire_suppressed].
   destruct f as [[|j]|]; [exact H0| |]; (destruct (exec c s) as [s'|] eqn:Ex; [apply (Hn s' eq_refl)|exact H0]).
 Qed.
 
@@ -210,21 +238,21 @@ Qed.
 Lemma prefix_safe_ignore_cons c p s E P :
   Safe s E P -> prefix_safe p (exec_or c s) E P -> prefix_safe p s E P -> prefix_safe ((c, Ignore) :: p) s E P.
 Proof.
-  intros H0 Hn Hs f [|k]; [exact H0|]. unfold fstate, exec_or in *. cbn [firstn run_prog].
+  intros H0 Hn Hs f [|k]; [exact H0|]. unfold fstate, exec_or in *. cbn [firstn run_prog retire_suppressed].
   destruct f as [[|j]|]; [apply (Hs None k)| |]; (destruct (exec c s) as [s'|]; apply Hn).
 Qed.
 
 Lemma prefix_safe_retire_cons c p s E P :
   Safe s E P -> prefix_safe p (exec_or c s) E P -> prefix_safe p s E P -> prefix_safe ((c, Retire) :: p) s E P.
 Proof.
-  intros H0 Hn Hs f [|k]; [exact H0|]. unfold fstate, exec_or in *. cbn [firstn run_prog].
+  intros H0 Hn Hs f [|k]; [exact H0|]. unfold fstate, exec_or in *. cbn [firstn run_prog retire_suppressed].
   destruct f as [[|j]|]; [apply (Hs None k)| |]; (destruct (exec c s) as [s'|]; apply Hn).
 Qed.
 
 Lemma prefix_safe_exist_cons c p s E P :
   Safe s E P -> prefix_safe p (exec_or c s) E P -> prefix_safe ((c, Exist) :: p) s E P.
 Proof.
-  intros H0 Hn f [|k]; [exact H0|]. unfold fstate, exec_or in *. cbn [firstn run_prog].
+  intros H0 Hn f [|k]; [exact H0|]. unfold fstate, exec_or in *. cbn [firstn run_prog retire_suppressed].
   destruct f as [[|j]|]; [exact H0| |]; (destruct (exec c s) as [s'|]; apply Hn).
 Qed.
 
@@ -232,22 +260,22 @@ Lemma prefix_safe_defer_cons c n p s E P :
   Safe s E P -> (exists s1, exec c s = Some s1) -> (forall s', exec c s = Some s' -> prefix_safe p s' E P) ->
   dsafe p n s E P -> prefix_safe ((c, Defer n) :: p) s E P.
 Proof.
-  intros H0 (s1 & E1) Hn Hd f [|k]; [exact H0|]. unfold fstate. cbn [firstn run_prog].
+  intros H0 (s1 & E1) Hn Hd f [|k]; [exact H0|]. unfold fstate. cbn [firstn run_prog retire_suppressed].
   destruct f as [[|j]|]; [apply (Hd k)| |]; rewrite E1; apply (Hn s1 E1).
 Qed.
 
 Lemma run_must_cons c p s :
   run ((c, Must) :: p) s = match exec c s with Some s' => run p s' | None => (s, Some EIo) end.
-Proof. unfold run. cbn [run_prog]. now destruct (exec c s). Qed.
+Proof. unfold run. cbn [run_prog retire_suppressed]. now destruct (exec c s). Qed.
 
 Lemma run_ignore_cons c p s : run ((c, Ignore) :: p) s = run p (exec_or c s).
-Proof. unfold run, exec_or. cbn [run_prog]. now destruct (exec c s). Qed.
+Proof. unfold run, exec_or. cbn [run_prog retire_suppressed]. now destruct (exec c s). Qed.
 
 Lemma run_retire_cons c p s : run ((c, Retire) :: p) s = run p (exec_or c s).
-Proof. unfold run, exec_or. cbn [run_prog]. now destruct (exec c s). Qed.
+Proof. unfold run, exec_or. cbn [run_prog retire_suppressed]. now destruct (exec c s). Qed.
 
 Lemma run_exist_cons c p s : run ((c, Exist) :: p) s = run p (exec_or c s).
-Proof. unfold run, exec_or. cbn [run_prog]. now destruct (exec c s). Qed.
+Proof. unfold run, exec_or. cbn [run_prog retire_suppressed]. now destruct (exec c s). Qed.
 
 Lemma must_app a b : must (a ++ b) = must a ++ must b.
 Proof. unfold must. apply map_app. Qed.
@@ -264,16 +292,16 @@ Lemma run_prog_must_app cs : forall p f s,
   end.
 Proof.
   induction cs as [|c cs IH]; intros p f s.
-  - cbn [must map app run_prog length fsub]. destruct f as [j|]; cbn [fsub]; [now rewrite Nat.sub_0_r|reflexivity].
-  - cbn [must map app run_prog length]. fold (must cs).
+  - cbn [must map app run_prog retire_suppressed length fsub]. destruct f as [j|]; cbn [fsub]; [now rewrite Nat.sub_0_r|reflexivity].
+  - cbn [must map app run_prog retire_suppressed length]. fold (must cs).
     destruct f as [[|j]|]; cbn [fsub]; [reflexivity| |]; (destruct (exec c s) as [s1|]; [|reflexivity]); rewrite IH; reflexivity.
 Qed.
 
 Lemma run_prog_must_ok cs : forall f s s', run_prog (must cs) f O s None = (s', None) -> run (must cs) s = (s', None).
 Proof.
-  induction cs as [|c cs IH]; intros f s s'; cbn [must map run_prog].
+  induction cs as [|c cs IH]; intros f s s'; cbn [must map run_prog retire_suppressed].
   - intros H. exact H.
-  - fold (must cs). unfold run. cbn [run_prog]. fold (must cs).
+  - fold (must cs). unfold run. cbn [run_prog retire_suppressed]. fold (must cs).
     destruct f as [[|j]|]; [discriminate| |]; (destruct (exec c s) as [s1|]; [apply IH|discriminate]).
 Qed.
 
@@ -314,16 +342,74 @@ Lemma dsafe_nil n s E P : Safe s E P -> dsafe [] n s E P.
 Proof. intros H k. unfold dstate. rewrite firstn_nil. exact H. Qed.
 
 Lemma dsafe_skip cm p n s E P : Safe s E P -> dsafe p n s E P -> dsafe (cm :: p) (S n) s E P.
-Proof. intros H0 H [|k]; [exact H0|]. unfold dstate. destruct cm as [c m]. cbn [firstn run_prog]. apply H. Qed.
+Proof. intros H0 H [|k]; [exact H0|]. unfold dstate. destruct cm as [c m]. cbn [firstn run_prog retire_suppressed]. apply H. Qed.
 
 Lemma dsafe_retire c p s E P : Safe s E P -> dsafe p O s E P -> dsafe ((c, Retire) :: p) O s E P.
-Proof. intros H0 H [|k]; [exact H0|]. unfold dstate. cbn [firstn run_prog]. apply H. Qed.
+Proof. intros H0 H [|k]; [exact H0|]. unfold dstate. cbn [firstn run_prog retire_suppressed]. apply H. Qed.
 
 Lemma dsafe_must c p s E P :
   Safe s E P -> (forall s', exec c s = Some s' -> dsafe p O s' E P) -> dsafe ((c, Must) :: p) O s E P.
 Proof.
-  intros H0 H [|k]; [exact H0|]. unfold dstate. cbn [firstn run_prog].
+  intros H0 H [|k]; [exact H0|]. unfold dstate. cbn [firstn run_prog retire_suppressed].
   destruct (exec c s) as [s'|] eqn:Ex; [apply (H s' eq_refl)|exact H0].
+Qed.
+
+(* ------------------------------------------------------------------ after a late error (the clean-up after the manifest edit) *)
+Lemma deferred_stays p : forall f k s e, snd (run_prog p f k s (Some e)) <> None.
+Proof.
+  induction p as [|[c m] p IH]; intros f k s e; cbn [run_prog]; [discriminate|].
+  destruct k; [|apply IH].
+  destruct (retire_suppressed m (Some e)); [apply IH|].
+  destruct (if match f with Some O => true | _ => false end then None else exec c s); [apply IH|].
+  destruct m; try (apply IH); try discriminate.
+  destruct (match f with Some O => true | _ => false end); [discriminate|apply IH].
+Qed.
+
+Lemma retire_suppressed_none m : retire_suppressed m None = false.
+Proof. destruct m; reflexivity. Qed.
+
+Lemma retire_suppressed_late m : retire_suppressed m (Some ELate) = retire_suppressed m None.
+Proof. destruct m; reflexivity. Qed.
+
+(* a late error changes what is returned, never what is done *)
+Lemma late_states p : forall f k s, fst (run_prog p f k s (Some ELate)) = fst (run_prog p f k s None).
+Proof.
+  induction p as [|[c m] p IH]; intros f k s; cbn [run_prog]; [reflexivity|].
+  destruct k; [|apply IH]. rewrite retire_suppressed_late.
+  destruct (retire_suppressed m None); [apply IH|].
+  destruct (if match f with Some O => true | _ => false end then None else exec c s); [apply IH|].
+  destruct m; try (apply IH); try reflexivity.
+  destruct (match f with Some O => true | _ => false end); [reflexivity|apply IH].
+Qed.
+
+(* every state of a run whose first n calls are skipped *)
+Definition psafe_skip (p : prog) (n : nat) (s : fs) (E : list entry) (P : option (list entry)) : Prop :=
+  forall f k, Safe (fst (run_prog (firstn k p) f n s None)) E P.
+
+Lemma psafe_skip_app a : forall q s E P, Safe s E P -> prefix_safe q s E P -> psafe_skip (a ++ q) (length a) s E P.
+Proof.
+  induction a as [|cm a IH]; intros q s E P H0 Hq f k.
+  - cbn [app length]. apply (Hq f k).
+  - destruct k as [|k]; [cbn; exact H0|]. cbn [app length firstn run_prog]. destruct cm. apply (IH q s E P H0 Hq f k).
+Qed.
+
+Lemma prefix_safe_late_cons c n p s E P :
+  Safe s E P -> (forall s', exec c s = Some s' -> prefix_safe p s' E P) ->
+  psafe_skip p n s E P -> prefix_safe ((c, Late n) :: p) s E P.
+Proof.
+  intros H0 Hn Hl f [|k]; [exact H0|]. unfold fstate. cbn [firstn run_prog retire_suppressed late_err].
+  destruct f as [[|j]|].
+  - rewrite late_states. apply Hl.
+  - destruct (exec c s) as [s1|] eqn:E1; [apply (Hn s1 eq_refl)|]. rewrite late_states. apply Hl.
+  - destruct (exec c s) as [s1|] eqn:E1; [apply (Hn s1 eq_refl)|]. rewrite late_states. apply Hl.
+Qed.
+
+Lemma dsafe_late c n p s E P :
+  Safe s E P -> (forall s', exec c s = Some s' -> dsafe p O s' E P) -> dsafe p n s E P ->
+  dsafe ((c, Late n) :: p) O s E P.
+Proof.
+  intros H0 H Hn [|k]; [exact H0|]. unfold dstate. cbn [firstn run_prog retire_suppressed late_err].
+  destruct (exec c s) as [s'|] eqn:Ex; [apply (H s' eq_refl)|apply Hn].
 Qed.
 
 (* ------------------------------------------------------------------ walk = every state passed through is safe, and the end satisfies Q *)
@@ -373,7 +459,18 @@ Lemma walk_defer_cons c n p s E P (Q : fs -> Prop) :
 Proof.
   intros H0 (s1 & E1) Hn Hd. destruct (Hn s1 E1) as [A B]. split.
   - apply prefix_safe_defer_cons; [exact H0|eauto| |exact Hd]. intros s' Hs. apply (Hn s' Hs).
-  - intros s'. unfold run. cbn [run_prog]. rewrite E1. apply B.
+  - intros s'. unfold run. cbn [run_prog retire_suppressed]. rewrite E1. apply B.
+Qed.
+
+Lemma walk_late_cons c n p s E P (Q : fs -> Prop) :
+  Safe s E P -> (forall s', exec c s = Some s' -> walk p s' E P Q) ->
+  psafe_skip p n s E P -> walk ((c, Late n) :: p) s E P Q.
+Proof.
+  intros H0 Hn Hl. split.
+  - apply prefix_safe_late_cons; [exact H0| |exact Hl]. intros s' Hs. apply (Hn s' Hs).
+  - intros s'. unfold run. cbn [run_prog retire_suppressed late_err].
+    destruct (exec c s) as [s1|] eqn:E1; [apply (Hn s1 eq_refl)|].
+    intros H. exfalso. pose proof (deferred_stays p None n s ELate) as Hd. rewrite H in Hd. now apply Hd.
 Qed.
 
 Lemma walk_conseq p s E P (Q Q' : fs -> Prop) : (forall s', Q s' -> Q' s') -> walk p s E P Q -> walk p s E P Q'.
@@ -408,30 +505,40 @@ Proof.
   intros Hw Hi He HS. apply (safe_same_rel s s'); [exact Hw|eapply exec_wf; eauto|eapply exec_irrelevant; eauto|exact HS].
 Qed.
 
-Lemma walk_irrelevant cs : forall s E P,
-  Forall irrelevant_call cs -> Good s E ->
-  walk (must cs) s E P (fun s' => run (must cs) s = (s', None) /\ Good s' E /\ same_rel s s').
+Lemma walk_irrelevant_c cs : forall s X E P,
+  Forall irrelevant_call cs -> Good s X -> covers E P X ->
+  walk (must cs) s E P (fun s' => run (must cs) s = (s', None) /\ Good s' X /\ same_rel s s').
 Proof.
-  induction cs as [|c cs IH]; intros s E P Hall Hg.
-  - cbn [must map]. apply walk_nil; [now apply good_safe|]. split; [reflexivity|]. split; [exact Hg|apply same_rel_refl].
+  induction cs as [|c cs IH]; intros s X E P Hall Hg Hcv.
+  - cbn [must map]. apply walk_nil; [now apply (good_safe_c s X)|]. split; [reflexivity|]. split; [exact Hg|apply same_rel_refl].
   - cbn [must map]. inversion Hall as [|? ? Hc Hcs]; subst.
-    apply walk_must_cons; [now apply good_safe|]. intros s' Hs'.
-    eapply walk_conseq; [|apply IH; [exact Hcs|eapply good_irrelevant; eauto]].
+    apply walk_must_cons; [now apply (good_safe_c s X)|]. intros s' Hs'.
+    eapply walk_conseq; [|apply (IH s' X E P); [exact Hcs|eapply good_irrelevant; eauto|exact Hcv]].
     cbn beta. intros s'' (R & G & Sm). split; [|split; [exact G|]].
     + rewrite run_must_cons, Hs'. exact R.
     + eapply same_rel_trans; [eapply exec_irrelevant; eauto|exact Sm].
 Qed.
 
+Lemma walk_irrelevant cs : forall s E P,
+  Forall irrelevant_call cs -> Good s E ->
+  walk (must cs) s E P (fun s' => run (must cs) s = (s', None) /\ Good s' E /\ same_rel s s').
+Proof. intros s E P Hall Hg. apply walk_irrelevant_c; [exact Hall|exact Hg|apply covers_refl]. Qed.
+
 (* after a deferred error only inputs' retirement (not issued) and clean-up calls are left *)
 Definition cleanup_like (p : prog) : Prop :=
-  Forall (fun cm => snd cm = Retire \/ (snd cm = Must /\ irrelevant_call (fst cm))) p.
+  Forall (fun cm => snd cm = Retire \/ (snd cm = Must /\ irrelevant_call (fst cm)) \/
+                    ((exists n, snd cm = Late n) /\ irrelevant_call (fst cm))) p.
 
-Lemma dsafe_cleanup p : forall s E P, cleanup_like p -> wf s -> Safe s E P -> dsafe p O s E P.
+Lemma dsafe_cleanup p : forall n s E P, cleanup_like p -> wf s -> Safe s E P -> dsafe p n s E P.
 Proof.
-  induction p as [|[c m] p IH]; intros s E P Hc Hw HS; [now apply dsafe_nil|].
-  inversion Hc as [|? ? Hh Ht]; subst. cbn [fst snd] in Hh. destruct Hh as [->|[-> Hi]].
+  induction p as [|[c m] p IH]; intros n s E P Hc Hw HS; [now apply dsafe_nil|].
+  inversion Hc as [|? ? Hh Ht]; subst. cbn [fst snd] in Hh.
+  destruct n as [|n]; [|apply dsafe_skip; [exact HS|now apply IH]].
+  destruct Hh as [->|[[-> Hi]|[(k & ->) Hi]]].
   - apply dsafe_retire; [exact HS|now apply IH].
   - apply dsafe_must; [exact HS|]. intros s' Hs'. apply IH; [exact Ht|eapply exec_wf; eauto|eapply safe_irrelevant; eauto].
+  - apply dsafe_late; [exact HS| |now apply IH].
+    intros s' Hs'. apply IH; [exact Ht|eapply exec_wf; eauto|eapply safe_irrelevant; eauto].
 Qed.
 
 (* ------------------------------------------------------------------ walk_ok = walk, and the fault-free run does complete *)
